@@ -7,6 +7,7 @@ cd /verif
 SNAP=$(mktemp /tmp/gtcheck.snap.XXXXXX); cp bin/gtcheck $SNAP; chmod +x $SNAP; export GTCHECK_BIN=$SNAP; trap "rm -f $SNAP" EXIT
 VERB=0; [ "$1" = "-v" ] && { VERB=1; shift; }
 PROPS=$(python3 -c "import json;print(' '.join(c['property_id'] for c in json.load(open('MANIFEST.json'))['checks']))")
+[ -n "$REFTEST_PROPS" ] && PROPS="$REFTEST_PROPS"
 CORPUS="${CORPUS:-selftest/refactors}"; LIST="$@"; [ -z "$LIST" ] && LIST=$(cd $CORPUS && ls -d */ | tr -d /)
 one() {
   r=$1
@@ -26,4 +27,4 @@ one() {
   rm -rf $W
 }
 export -f one; export PROPS VERB CORPUS
-printf '%s\n' $LIST | xargs -P 8 -I{} bash -c 'one {}' | sort
+printf '%s\n' $LIST | xargs -P ${REFTEST_JOBS:-8} -I{} bash -c 'one {}' | sort
